@@ -2,7 +2,8 @@
   C20 — the netlist comparer accepts equal netlists and rejects structural differences.
 
   `compare` (Model.lean) is the executable model of `Comparer(a, b).compare()` AS REPAIRED by
-  docs/fixes/compare_outer_pins.diff; `compareUnrepaired` is the pinned commit.
+  docs/fixes/compare_*.diff (outer pins and exact look-ups have landed in /repo; the port-pin "DRC"
+  assertion and the unnamed-instance repair are proposed); `compareUnrepaired` is the pinned commit.
   `examined o n` (Spec.lean) is the name-keyed view of `n` holding exactly what the statement lists
   (port direction / width / array-ness, cable width, per wire and pin which instance, port and bit,
   instance reference, the values given to the ORIGINAL's properties, the five counts).
@@ -12,22 +13,29 @@
 import Spydr.Compare.LemmasRefl
 import Spydr.Compare.LemmasDecide
 import Spydr.Compare.LemmasMut
+import Spydr.Compare.LemmasComplete
 
 namespace Spydr.Compare.C20
 open Spydr.Compare
 
-/-- **Accepts equal netlists.**  A well-formed, self-contained, fully named netlist with unique
-    sibling names (and no `SDN_Assignment_…` instance, which the comparer is documented to skip) is
-    accepted when compared with itself — hence with any copy whose `CNetlist` value is equal
-    (DESIGN §5 decision 7: clone, write-then-read).  No bound on sizes. -/
-theorem compare_refl (n : CNetlist) (hW : WF n) (hN : Named n) (hU : UniqueNames n) (hA : NoAssign n) :
+/-- **Accepts equal netlists.**  A netlist whose wires list placed pins, whose property dicts have
+    unique keys (`WF`), whose named siblings have unique names and whose `SDN_Assignment_…` instances (if
+    any) carry the width token the comparer reads is accepted when compared with itself — hence with any
+    copy whose `CNetlist` value is equal.  No `Named` hypothesis (unnamed elements are skipped, a net may
+    touch an unnamed instance), no hypothesis on port widths (a port may have no pins), no bound on sizes. -/
+theorem compare_refl (n : CNetlist) (hW : WF n) (hU : UniqueNames n) (hA : AssignOK n) :
     compare n n = .ok () :=
-  compareWith_refl (netHyp_of hN hU hA (propKeys_of_WF hW)) (defWF_of hW)
+  compareWith_refl (netHypR_of hW hU hA)
 
-/-- The same for the comparer of the pinned commit (its defect only makes it accept more). -/
-theorem compareUnrepaired_refl (n : CNetlist) (hW : WF n) (hN : Named n) (hU : UniqueNames n) (hA : NoAssign n) :
-    compareUnrepaired n n = .ok () :=
-  compareWith_refl (netHyp_of hN hU hA (propKeys_of_WF hW)) (defWF_of hW)
+/-- **Accepts every copy that shows the same view** (completeness; the copy may list its libraries,
+    definitions, ports, cables and instances in any order).  If the original is fully named with unique
+    sibling names and no `SDN_Assignment_…` instance, both netlists are `WF`, the copy's named siblings are
+    unique, the copy shows the same examined view and the same identifier fields (netlist name, top
+    instance name, original identifiers), then the comparer returns. -/
+theorem compare_complete (a b : CNetlist) (hN : Named a) (hU : UniqueNames a) (hA : NoAssign a)
+    (hWa : WF a) (hWb : WF b) (hUb : UniqueNames b)
+    (hv : examined a a = examined a b) (hi : idents a = idents b) : compare a b = .ok () :=
+  compareWith_complete (netHyp_of hN hU hA (propKeys_of_WF hWa)) (pinsOK_of_WF hWa) (defB_of hWb hUb) hv hi
 
 /-- **Rejects structural differences** (full strength).  If the original `a` is fully named with
     unique sibling names, none of its instances is named `SDN_Assignment_…`, and its property
@@ -48,10 +56,30 @@ theorem compare_sound_contrapositive (a b : CNetlist) (hN : Named a) (hU : Uniqu
   | error e => exact ⟨e, rfl⟩
   | ok u => cases u; exact absurd (compare_sound a b hN hU hA hK h) hne
 
+/-- **Among named elements.**  The same without `Named`: for an original whose *named* siblings have
+    unique names (unnamed libraries, definitions, ports, cables, instances are allowed and skipped),
+    acceptance implies equality of the view restricted to the original's named elements (`examinedN`;
+    the five counts remain total). -/
+theorem compare_sound_named (a b : CNetlist) (hU : UniqueNames a) (hA : NoAssign a) (hK : PropKeys a)
+    (h : compare a b = .ok ()) : examinedN a a = examinedN a b :=
+  compareWith_soundN (netHypN_of hU hA hK) h
+
+theorem compare_sound_named_contrapositive (a b : CNetlist) (hU : UniqueNames a) (hA : NoAssign a)
+    (hK : PropKeys a) (hne : examinedN a a ≠ examinedN a b) : ∃ fam, compare a b = .error fam := by
+  cases h : compare a b with
+  | error e => exact ⟨e, rfl⟩
+  | ok u => cases u; exact absurd (compare_sound_named a b hU hA hK h) hne
+
 /-- The executable form of "nothing examined differs" that the driver evaluates is exactly the
     equation between views. -/
 theorem examinedEqB_iff (o a b : CNetlist) : examinedEqB o a b = true ↔ examined o a = examined o b :=
   examinedEqB_spec o a b
+
+theorem examinedNEqB_iff (o a b : CNetlist) : examinedNEqB o a b = true ↔ examinedN o a = examinedN o b :=
+  examinedNEqB_spec o a b
+
+theorem identsEqB_iff (a b : CNetlist) : identsEqB a b = true ↔ idents a = idents b :=
+  identsEqB_spec a b
 
 /-! ## Non-vacuity: a two-level design with a bus port, two instances and properties -/
 
@@ -80,7 +108,7 @@ def exB : CNetlist := net true
 
 example : WF exA ∧ Named exA ∧ UniqueNames exA ∧ NoAssign exA ∧ PropKeys exA := by decide
 example : WF exB ∧ Named exB ∧ UniqueNames exB ∧ NoAssign exB := by decide
-example : compare exA exA = .ok () := compare_refl exA (by decide) (by decide) (by decide) (by decide)
+example : compare exA exA = .ok () := compare_refl exA (by decide) (by decide) (by decide)
 
 /-- the two examined views really differ (at cable `n` of `work.top`) -/
 theorem exA_exB_differ : examined exA exA ≠ examined exA exB := by
@@ -103,6 +131,59 @@ theorem unrepaired_accepts_moved_pin :
     WF exA ∧ Named exA ∧ UniqueNames exA ∧ NoAssign exA ∧ WF exB ∧ Named exB ∧ UniqueNames exB :=
   ⟨by decide, exA_exB_differ, by decide⟩
 
+
+/-! a partly named netlist with a pin-less port and a net on an unnamed instance -/
+
+def leafP : CDef :=
+  { name := some "leaf", origId := none,
+    ports := [⟨some "A", none, "IN", 1, true⟩, ⟨some "Z", none, "OUT", 0, true⟩, ⟨none, none, "IN", 1, true⟩],
+    cables := [], insts := [] }
+
+def topP : CDef :=
+  { name := some "top", origId := none, ports := [⟨some "X", none, "IN", 1, true⟩],
+    cables := [⟨some "n", none, [[.port 0 0, .inst 0 0 0]]⟩, ⟨none, none, [[.inst 0 2 0]]⟩],
+    insts := [⟨none, none, .idx 0 0, none⟩] }
+
+def exP : CNetlist :=
+  { name := some "design", origId := none, libs := [⟨some "work", none, [leafP, topP]⟩, ⟨none, none, []⟩],
+    top := some ⟨none, none, .idx 0 1, none⟩ }
+
+example : WF exP ∧ UniqueNames exP ∧ AssignOK exP ∧ NoAssign exP ∧ PropKeys exP ∧ ¬ Named exP := by decide
+example : compare exP exP = .ok () := compare_refl exP (by decide) (by decide) (by decide)
+
+/-- **The pinned commit rejects this netlist compared with itself** (its "at least one pin" assertion;
+    with that removed, `None.startswith` on the unnamed instance). -/
+theorem pinned_rejects_self : compareUnrepaired exP exP = .error "assert" ∧
+    compareWith ⟨true, true, false⟩ exP exP = .error "other" := by decide
+
+/-- the connection on the unnamed instance moved to its third port: rejected (restricted view differs) -/
+def exP' : CNetlist :=
+  { exP with libs := [⟨some "work", none, [leafP, { topP with
+      cables := [⟨some "n", none, [[.port 0 0, .inst 0 2 0]]⟩, ⟨none, none, [[.inst 0 0 0]]⟩] }]⟩, ⟨none, none, []⟩] }
+
+example : ∃ fam, compare exP exP' = .error fam :=
+  compare_sound_named_contrapositive exP exP' (by decide) (by decide) (by decide)
+    (fun h => absurd ((examinedNEqB_iff exP exP exP').2 h) (by decide))
+
+/-! completeness: `exA` with the definitions of `work`, the cables and the instances of `top` listed in
+    another order (pins re-indexed accordingly) is accepted -/
+
+def topDefR : CDef :=
+  { name := some "top", origId := none,
+    ports := [⟨some "X", none, "IN", 1, true⟩],
+    cables := [⟨some "m", none, [[.inst 0 1 0], [.inst 0 1 1]]⟩, ⟨some "n", none, [[.port 0 0, .inst 1 0 0]]⟩],
+    insts := [⟨some "u2", none, .idx 0 1, none⟩,
+              ⟨some "u1", none, .idx 0 1, some [[("identifier", "\"INIT\""), ("value", "\"8'h01\"")]]⟩] }
+
+def exR : CNetlist :=
+  { name := some "design", origId := none,
+    libs := [⟨some "work", none, [topDefR, leaf]⟩],
+    top := some ⟨some "top_i", none, .idx 0 0, none⟩ }
+
+example : exR ≠ exA := by decide
+example : compare exA exR = .ok () :=
+  compare_complete exA exR (by decide) (by decide) (by decide) (by decide) (by decide) (by decide)
+    ((examinedEqB_iff exA exA exR).1 (by decide)) ((identsEqB_iff exA exR).1 (by decide))
 
 /-! ## Every single structural mutation of the statement's list raises
 
@@ -142,6 +223,17 @@ theorem mutation_move_connection_raises {a : CNetlist} {li di ci wi k : Nat} {L 
     ∃ fam, compare a (setDef a li di
       { D with cables := D.cables.set ci { C with wires := C.wires.set wi (w.set k p') } }) = .error fam :=
   pin_move_raises hN hU hA hK hat hC hw hp (pinView_ne (pinCtx_of hN hU hat) hp'OK hpOK hne)
+
+/-- drop one connection of a net, add one, or move one to another net: any copy of the definition (same
+    name, unique cable names) in which wire `wi` of the same-named cable lists another number of pins -/
+theorem mutation_wire_pincount_raises {a : CNetlist} {li di ci ci' wi : Nat} {L : CLib} {D D' : CDef}
+    {C C' : CCable} {w w' : List CPin}
+    (hN : Named a) (hU : UniqueNames a) (hA : NoAssign a) (hK : PropKeys a)
+    (hat : At a li di L D) (hname : D'.name = D.name) (hndC' : (namesOf (·.name) D'.cables).Nodup)
+    (hC : D.cables[ci]? = some C) (hC' : D'.cables[ci']? = some C') (hcn : C'.name = C.name)
+    (hw : C.wires[wi]? = some w) (hw' : C'.wires[wi]? = some w') (hne : w'.length ≠ w.length) :
+    ∃ fam, compare a (setDef a li di D') = .error fam :=
+  wire_pincount_raises hN hU hA hK hat hname hndC' hC hC' hcn hw hw' hne
 
 /-- re-point an instance to another definition of the netlist -/
 theorem mutation_repoint_raises {a : CNetlist} {li di ki lj dj lk dk : Nat} {L K K' : CLib} {D E E' : CDef}
@@ -203,6 +295,14 @@ example : exB = setDef exA 0 1 topMoved := by decide
 example : ∃ fam, compare exA (setDef exA 0 1 topMoved) = .error fam :=
   mutation_move_connection_raises (p := .inst 0 0 0) (by decide) (by decide) (by decide) (by decide) exA_at
     (C := cableN) rfl rfl rfl (by decide) (by decide) (by decide)
+
+/-- the connection `u2.B[1]` moved from wire 1 of net `m` to net `n` -/
+def topMovedToOtherWire : CDef := { (topDef false) with
+  cables := [⟨some "n", none, [[.port 0 0, .inst 0 0 0, .inst 1 1 1]]⟩, ⟨some "m", none, [[.inst 1 1 0], []]⟩] }
+
+example : ∃ fam, compare exA (setDef exA 0 1 topMovedToOtherWire) = .error fam :=
+  mutation_wire_pincount_raises (C := cableN) (ci := 0) (ci' := 0) (wi := 0) (by decide) (by decide) (by decide) (by decide)
+    exA_at rfl (by decide) rfl rfl rfl rfl rfl (by decide)
 
 example : ∃ fam, compare exA (setDef exA 0 1 topDirChanged) = .error fam :=
   mutation_port_raises (P := portX) (by decide) (by decide) (by decide) (by decide)
